@@ -39,11 +39,14 @@ Definition shifted (k : clocks) (c : clock) (b delta : Z) : dtime :=
   let s := b + delta in
   if s >=? MAXV then Forever else if s <? lo c then At c (past k c) else At c s.
 
-Definition time_le (a b : dtime) : Prop :=
+(* "a is not later than b": times are compared by the instant at which a wait until them ends, i.e. an
+   already-elapsed time counts as `now` (the property lets an underflowing shift return any elapsed time of
+   the clock, so two elapsed times are indistinguishable) *)
+Definition time_le (k : clocks) (a b : dtime) : Prop :=
   match a, b with
   | _, Forever => True
   | Forever, At _ _ => False
-  | At c v, At c' v' => c = c' /\ v <= v'
+  | At c v, At c' v' => c = c' /\ Z.max v (now k c) <= Z.max v' (now k c)
   end.
 
 Definition same_clock_or_forever (c : clock) (d : dtime) : Prop :=
@@ -51,3 +54,17 @@ Definition same_clock_or_forever (c : clock) (d : dtime) : Prop :=
 
 Definition elapsed (k : clocks) (d : dtime) : Prop :=
   match d with Forever => False | At c v => v <= now k c end.
+
+(* dispatch_walltime: what the timespec (or NULL = now) denotes as a base, as exact integers.  A timespec
+   whose nanosecond count does not fit 64 signed bits (stepwise: tv_sec*10^9, then + tv_nsec) is itself
+   outside every representable time: the far future (FOREVER) or the far past (an elapsed wall time),
+   like the out-of-range bases of dispatch_time. *)
+Definition fits64 (x : Z) : bool := (-9223372036854775808 <=? x) && (x <? 9223372036854775808).
+Definition walltime_spec (k : clocks) (ts : option (Z * Z)) (delta : Z) : dtime :=
+  match ts with
+  | None => shifted k Wall (now_wall k) delta
+  | Some (sec, nsec) =>
+      if fits64 (sec * 1000000000) && fits64 (sec * 1000000000 + nsec)
+      then shifted k Wall (sec * 1000000000 + nsec) delta
+      else if sec <? 0 then At Wall (now_wall k) else Forever
+  end.
